@@ -14,7 +14,7 @@ RULE = ('Hypothesis-generated netlists x {c_reuse} x {strip_forks} x capacities 
         'Oracle: s and the whole signal memory (scratch slots excluded) are bit-identical to list-order execution. Structural predicate on every '
         'generated simulator: every operand of a level-L op is the zero slot, an interface input or written in a level < L (stems found by walking '
         'the circuit), no two ops of a level write overlapping regions, no region written in level L overlaps a region read in level L. '
-        'non-trivial: some level has >= 3 ops and memory was really reused (c_len smaller than without reuse); distinct by SHA-1 of the case.')
+        'non-trivial: some level has >= 3 ops and memory was really reused (c_len smaller than without reuse); distinct by SHA-1 of the case. Some connected gates are ports as well (test points appended to io_nodes).')
 ASSUMPTIONS = ['each mock-GPU thread runs atomically (finer interleavings are represented by the structural predicate: disjoint write sets, reads '
                'only from earlier levels)', 'no numba/CUDA: kernels are the Python source']
 
@@ -38,7 +38,8 @@ def cases(draw, tier):
     return dict(nl=nl, kind=kind, lanes=lanes, waves=waves, codes=codes, dpool=draw(W.DELAY_POOL), caps=draw(W.CAPS),
                 c_reuse=draw(st.sampled_from([True, True, False])), strip_forks=draw(st.booleans()),
                 keys=draw(st.lists(st.integers(0, 1000), min_size=16, max_size=16)),
-                tkeys=draw(st.lists(st.integers(0, 1000), min_size=32, max_size=32)), nperm=draw(st.integers(1, 3)))
+                tkeys=draw(st.lists(st.integers(0, 1000), min_size=32, max_size=32)), nperm=draw(st.integers(1, 3)),
+                tps=draw(st.one_of(st.just([]), st.just([]), st.lists(st.integers(0, 400), min_size=1, max_size=3))))       # gates that are ports as well (test points)
 
 
 class OrderedLauncher:
@@ -171,6 +172,14 @@ def prop(case):
     import kyupy.wave_sim as ws
     nl = case['nl']
     b = build(nl)
+    # "A subset of nodes can be designated as ports by adding them to io_nodes": some connected gates become ports too (test points: the input is
+    # observed, the output is controlled); their rows of s keep the default stimulus
+    tps = []
+    for t in case.get('tps', []):
+        cand = [n for n in b.g if n.ins and all(l is not None for l in n.ins) and n.outs and n.outs[0] is not None and not any(n is x for x in tps)]
+        if cand:
+            tps.append(cand[t % len(cand)])
+            b.c.io_nodes.append(tps[-1])
     ref = make_sim(case, b)
     maxops = structural(ref, b, case) if not __import__('os').environ.get('VERIF_C07_NOSTRUCT') else 3
     s0, c0 = run_sim(case, b, ref)
@@ -216,6 +225,7 @@ def prop(case):
     if reused: labels.append('memory_really_reused')
     if case['strip_forks']: labels.append('strip_forks')
     if len(nl['g']) >= 100: labels.append('>=100_gates')
+    if tps: labels.append('gate_as_port')
     return Obs(maxops >= 3 and reused, labels, checks=nperms + 1)
 
 
